@@ -427,18 +427,20 @@ Proof.
   assert (CL : forall e w', cleanup true hr c w = (e, w') -> Core w' /\ Done w').
   { clear Hs Hr e w'. intros e w' Hs. unfold cleanup in Hs.
     destruct (op_close true hr c (CInt (err_code c)) false w) as [r w1] eqn:E1.
+    assert (Hb2 : bad_code (CInt fallback_ws_error_code) = false) by reflexivity.
     destruct (bad_code (CInt (err_code c))) eqn:Hb.
-    - pose proof (op_close_core hr c (CInt (err_code c)) false w r w1 H E1) as L1.
-      unfold op_close in E1. rewrite (code_check_bad _ Hb) in E1. injection E1 as <- <-.
-      rewrite (code_check_bad _ Hb) in Hs.
-      destruct (op_close true hr c (CInt fallback_ws_error_code) false _) as [r2 w2] eqn:E2.
-      assert (Hb2 : bad_code (CInt fallback_ws_error_code) = false) by reflexivity.
-      pose proof (op_close_done _ _ _ _ _ _ _ L1 Hb2 E2) as D.
+    - unfold op_close in E1. rewrite (code_check_bad _ Hb) in E1. injection E1 as <- <-.
+      unfold mentions_invalid_code in Hs. rewrite (code_check_bad _ Hb) in Hs.
+      destruct (op_close true hr c (CInt fallback_ws_error_code) false w) as [r2 w2] eqn:E2.
+      pose proof (op_close_done _ _ _ _ _ _ _ H Hb2 E2) as D.
       destruct r2; injection Hs as <- <-; exact D.
     - pose proof (op_close_done _ _ _ _ _ _ _ H Hb E1) as D.
-      destruct (code_check_good _ Hb) as [co Eco]. rewrite Eco in Hs.
-      destruct r; injection Hs as <- <-; exact D. }
-  destruct x as [|code| | | | | | |status|status|]; try (eapply CL; exact Hs).
+      destruct r as [v|x1|]; try (injection Hs as <- <-; exact D).
+      destruct (mentions_invalid_code c x1); [|injection Hs as <- <-; exact D].
+      destruct (op_close true hr c (CInt fallback_ws_error_code) false w1) as [r2 w2] eqn:E2.
+      pose proof (op_close_done _ _ _ _ _ _ _ (proj1 D) Hb2 E2) as D2.
+      destruct r2; injection Hs as <- <-; exact D2. }
+  destruct x as [|code| | | | | | | |status|status|]; try (eapply CL; exact Hs).
   - destruct (op_close true hr c (CInt (status + ws_code_offset)) false w) as [r w1] eqn:E1.
     assert (Hb : bad_code (CInt (status + ws_code_offset)) = false)
       by (cbn in Hr; unfold status_ok in Hr; cbn; rewrite Hr; reflexivity).
